@@ -95,11 +95,11 @@ pub fn linear_motion(
     let value = if delta.is_sign_negative() {
         delta_normal
     } else {
-        -delta_normal
+        delta_normal.saturating_neg()
     };
 
     if inverse {
-        Some(-value)
+        Some(value.saturating_neg())
     } else {
         Some(value)
     }
